@@ -60,11 +60,32 @@ theorem pmod_fin (hM : ModSound Bo P) {x y : K} (hy : y ≠ 0) :
     simp only [n1, false_and, or_false, hpos, true_and, not_lt.2 (le_of_lt h2), if_false,
       not_lt.2 h1, pyMod]
 
+/-- the Boost bounds `Interval::mod` hands to the constructor -/
+def imodOut (Bo : BoostOps K) (A B : IVal K) : Bnd K :=
+  if A.hi.isFinite && A.lo.isFinite then
+    match modPosition B with
+    | 3 => ⟨fmin B.lo zeroV, fmax zeroV B.hi⟩
+    | 0 => Bo.empty
+    | p =>
+      if (Bo.floorF (Bo.div (if p == 2 then Bo.mulNeg1 A.b else A.b) (Bo.abs B.b)).lo).isFinite &&
+          feq (Bo.floorF (Bo.div (if p == 2 then Bo.mulNeg1 A.b else A.b) (Bo.abs B.b)).lo)
+            (Bo.floorF (Bo.div (if p == 2 then Bo.mulNeg1 A.b else A.b) (Bo.abs B.b)).hi) then
+        Bo.sub A.b (Bo.mulF B.b
+          (Bo.floorF (Bo.div (if p == 2 then Bo.mulNeg1 A.b else A.b) (Bo.abs B.b)).lo))
+      else ⟨fmin B.lo zeroV, fmax zeroV B.hi⟩
+  else ⟨fmin B.lo zeroV, fmax zeroV B.hi⟩
+
+theorem imod_eq (A B : IVal K) : imod Bo A B = IVal.of (imodOut Bo A B)
+    (A.mn || B.mn || (FVal.ge B.hi zeroV && FVal.le B.lo zeroV) ||
+      A.lo.isInf || A.hi.isInf || B.lo.isInf || B.hi.isInf) := rfl
+
+/-- the flag of `mod`: the authored expression, or a NaN bound returned by Boost (the constructor
+    then replaces the bounds by the whole line) -/
 theorem imod_flag (A B : IVal K) : (imod Bo A B).mn = true ↔
     ((A.mn || B.mn || (FVal.ge B.hi zeroV && FVal.le B.lo zeroV) ||
       A.lo.isInf || A.hi.isInf || B.lo.isInf || B.hi.isInf) = true ∨
-     (imod Bo A B).lo.isNan = true ∨ (imod Bo A B).hi.isNan = true) := by
-  show ((_ || _ || _) = true) ↔ _
+     (imodOut Bo A B).lo.isNan = true ∨ (imodOut Bo A B).hi.isNan = true) := by
+  rw [imod_eq, mn_of]
   simp only [Bool.or_eq_true]
   constructor
   · rintro ((h | h) | h)
@@ -141,31 +162,31 @@ theorem out0_encl {B : IVal K} {x y : K} (ib : inB B (fin y)) (hy : y ≠ 0) :
       exact out0_hi hy (by simpa using h2)
 
 theorem imod_b_notfin {A B : IVal K} (h : (A.hi.isFinite && A.lo.isFinite) = false) :
-    (imod Bo A B).b = out0 B := by
-  apply Bnd.ext' <;> simp [imod, h, out0, IVal.b, IVal.of]
+    imodOut Bo A B = out0 B := by
+  apply Bnd.ext' <;> simp [imodOut, h, out0]
 
 theorem imod_b_zero {A B : IVal K} (h : (A.hi.isFinite && A.lo.isFinite) = true)
     (h1 : FVal.ge B.hi zeroV = true) (h2 : FVal.le B.lo zeroV = true) :
-    (imod Bo A B).b = out0 B := by
-  apply Bnd.ext' <;> simp [imod, modPosition, h1, h2, h, out0, IVal.b, IVal.of]
+    imodOut Bo A B = out0 B := by
+  apply Bnd.ext' <;> simp [imodOut, modPosition, h1, h2, h, out0]
 
 theorem imod_b_pos {A B : IVal K} (h : (A.hi.isFinite && A.lo.isFinite) = true)
     (h1 : FVal.ge B.hi zeroV = true) (h2 : FVal.le B.lo zeroV = false) :
-    (imod Bo A B).b =
+    imodOut Bo A B =
       (if ((Bo.floorF (Bo.div A.b (Bo.abs B.b)).lo).isFinite &&
             FVal.feq (Bo.floorF (Bo.div A.b (Bo.abs B.b)).lo) (Bo.floorF (Bo.div A.b (Bo.abs B.b)).hi)) = true
        then Bo.sub A.b (Bo.mulF B.b (Bo.floorF (Bo.div A.b (Bo.abs B.b)).lo)) else out0 B) := by
-  apply Bnd.ext' <;> simp [imod, modPosition, h1, h2, h, out0, IVal.b, IVal.of]
+  apply Bnd.ext' <;> simp [imodOut, modPosition, h1, h2, h, out0, IVal.b]
 
 theorem imod_b_neg {A B : IVal K} (h : (A.hi.isFinite && A.lo.isFinite) = true)
     (h1 : FVal.ge B.hi zeroV = false) (h2 : FVal.le B.lo zeroV = true) :
-    (imod Bo A B).b =
+    imodOut Bo A B =
       (if ((Bo.floorF (Bo.div (Bo.mulNeg1 A.b) (Bo.abs B.b)).lo).isFinite &&
             FVal.feq (Bo.floorF (Bo.div (Bo.mulNeg1 A.b) (Bo.abs B.b)).lo)
               (Bo.floorF (Bo.div (Bo.mulNeg1 A.b) (Bo.abs B.b)).hi)) = true
        then Bo.sub A.b (Bo.mulF B.b (Bo.floorF (Bo.div (Bo.mulNeg1 A.b) (Bo.abs B.b)).lo))
        else out0 B) := by
-  apply Bnd.ext' <;> simp [imod, modPosition, h1, h2, h, out0, IVal.b, IVal.of]
+  apply Bnd.ext' <;> simp [imodOut, modPosition, h1, h2, h, out0, IVal.b]
 
 /-- what the refinement test `isfinite(floor q.lo) && floor q.lo == floor q.hi` establishes -/
 theorem floor_cond (hM : ModSound Bo P) {q : Bnd K}
@@ -264,7 +285,8 @@ theorem mod_enclS (hS : BoostSound Bo P) (hM : ModSound Bo P) {A B : IVal K} {a 
   · rw [pmod_fin hM hy]
     right
     have hout0 : inBb (out0 B) (fin (pyMod x y)) := out0_encl ib hy
-    show inBb (imod Bo A B).b (fin (pyMod x y))
+    rw [imod_eq]
+    apply inB_of
     by_cases hfin : (A.hi.isFinite && A.lo.isFinite) = true
     swap
     · rw [imod_b_notfin (by simpa using hfin)]; exact hout0
